@@ -25,16 +25,16 @@ InitInP(diag) ==
                \E en \in Entries(p, diag) :
                \E o \in (IF p \in {"moddir", "reload"} THEN (IF diag THEN {"none", "future1"} ELSE {"none", "future1", "modblock"}) ELSE {"none"}) :
                  cell = [id |-> 0, form |-> "bytes", x |-> x, bom |-> b, cm |-> cm, ie |-> ie, c |-> <<c1, c2>>,
-                         path |-> p, oe |-> None, errs |-> "strict", opt |-> o, bj |-> None, bp |-> None, ent |-> en]
+                         path |-> p, oe |-> None, errs |-> "strict", opt |-> o, bj |-> None, bp |-> None, ent |-> en, dp |-> None, dc |-> None]
 InitOutP(diag) ==
            /\ InitRest
            /\ \E c1 \in (IF diag THEN {"A"} ELSE T_Base), oe \in {None} \cup T_Out, e \in T_Errs :
                 \/ \E c2 \in T_GridSyms :
                      cell = [id |-> 0, form |-> "str", x |-> "utf_8", bom |-> FALSE, cm |-> None, ie |-> None,
-                             c |-> <<c1, c2>>, path |-> "bytes", oe |-> oe, errs |-> e, opt |-> "none", bj |-> None, bp |-> None, ent |-> "direct"]
+                             c |-> <<c1, c2>>, path |-> "bytes", oe |-> oe, errs |-> e, opt |-> "none", bj |-> None, bp |-> None, ent |-> "direct", dp |-> None, dc |-> None]
                 \/ \E c2 \in T_Base, p \in (IF diag THEN {"moddir"} ELSE Paths) :
                      cell = [id |-> 0, form |-> "bytes", x |-> "utf_8", bom |-> FALSE, cm |-> None, ie |-> None,
-                             c |-> <<c1, c2>>, path |-> p, oe |-> oe, errs |-> e, opt |-> "none", bj |-> None, bp |-> None, ent |-> "direct"]
+                             c |-> <<c1, c2>>, path |-> p, oe |-> oe, errs |-> e, opt |-> "none", bj |-> None, bp |-> None, ent |-> "direct", dp |-> None, dc |-> None]
 \* possibly undecodable input: every byte string x position x true codec x BOM x declaration x path
 InitBadP(diag) ==
            /\ InitRest
@@ -45,7 +45,15 @@ InitBadP(diag) ==
                  /\ T_JunkCodec[j] \in {"any", x}          \* a character (not a raw byte string) comes in the cell's codec
                  /\ ((T_JunkHex[j] = "hefbbbf" /\ pos = "start") => b)   \* U+FEFF first, without a mark before it, IS the mark
                  /\ cell = [id |-> 0, form |-> "bytes", x |-> x, bom |-> b, cm |-> cm, ie |-> ie, c |-> <<c1, "A">>,
-                            path |-> p, oe |-> None, errs |-> "strict", opt |-> "none", bj |-> j, bp |-> pos, ent |-> "direct"]
+                            path |-> p, oe |-> None, errs |-> "strict", opt |-> "none", bj |-> j, bp |-> pos, ent |-> "direct", dp |-> None, dc |-> None]
+\* lines that look like a coding declaration below line 1: position x named codec x real declaration x path
+InitDecoyP(diag) ==
+           /\ InitRest
+           /\ \E x \in T_True, p \in Paths, dp \in {"line2", "line3", "mid", "intext", "incomment", "indoc", "instring"} :
+               \E cm \in {None, x}, ie \in {None, x}, c1 \in T_Rep[x], dc \in (IF diag THEN {x, "koi8_r", "shift_jis"} ELSE T_True) :
+                 cell = [id |-> 0, form |-> "bytes", x |-> x, bom |-> FALSE, cm |-> cm, ie |-> ie, c |-> <<c1, "A">>,
+                         path |-> p, oe |-> None, errs |-> "strict", opt |-> "none", bj |-> None, bp |-> None, ent |-> "direct",
+                         dp |-> dp, dc |-> dc]
 Report == /\ Finished /\ Emit /\ PrintT(ToJson(Observation)) /\ pc' = "reported"
           /\ UNCHANGED <<cell, enc, res, text, content, modfile, loaded, src, uni, out>>
 MCNext == Next \/ Report
@@ -54,6 +62,8 @@ SpecIn == InitInP(FALSE) /\ [][MCNext]_vars
 SpecInDiag == InitInP(TRUE) /\ [][MCNext]_vars     \* quick tier: the second character equals the first or is ASCII
 SpecBad == InitBadP(FALSE) /\ [][MCNext]_vars
 SpecBadDiag == InitBadP(TRUE) /\ [][MCNext]_vars    \* quick tier: the ordinary characters of the cell are ASCII
+SpecDecoy == InitDecoyP(FALSE) /\ [][MCNext]_vars
+SpecDecoyDiag == InitDecoyP(TRUE) /\ [][MCNext]_vars
 SpecOut == InitOutP(FALSE) /\ [][MCNext]_vars
 SpecOutDiag == InitOutP(TRUE) /\ [][MCNext]_vars   \* quick tier: first character fixed
 \* the tables are closed under a round trip (what the module-file paths rely on); checked once
